@@ -28,6 +28,7 @@ const (
 	FIterErr    = "iter-err"   // KV iterator reports error at Close / enumerate errors after j
 	FShortWrite = "short-write"
 	FShortStore = "short-store" // receive keeps a copy one byte short and reports that size (a misbehaving replica)
+	FErrNoEnt   = "err-noent"   // fail, no effect, with an error that wraps os.ErrNotExist (a directory of the store briefly missing)
 )
 
 // Fault addresses one lower-layer call.
